@@ -231,21 +231,27 @@ Definition is_type_name (s : bytes) : bool :=
 (* ---- the expression loop shared by GetClassAdRawBody and GetClassAd ----
    [ok] is what the receiver does with one expression string: GetClassAdRaw
    accepts everything, GetClassAd stops at the first string
-   parseAndInsertExpression rejects. *)
-Fixpoint get_exprs (ok : bytes -> bool) (n : nat) (t : treader) (acc : list bytes)
+   parseAndInsertExpression rejects.  [check_fin]: GetClassAdRawBody (and
+   SkipClassAdRaw) stop when the message is exhausted, GetClassAd does not
+   (it fails on the empty string it then reads). *)
+Definition t_finished (t : treader) : bool :=      (* Message.Finished() *)
+  r_fin (t_r t) && match r_buf (t_r t) with [] => true | _ => false end.
+
+Fixpoint get_exprs (ok : bytes -> bool) (check_fin : bool) (n : nat) (t : treader) (acc : list bytes)
   : treader * mres (list bytes) :=
   match n with
   | O => (t, MOk (rev acc))
   | S k =>
+      if check_fin && t_finished t then (t, MErr MOther) else
       match t_get_string t with
       | (t1, MOk s) =>
           if bytes_eqb s secret_marker then
             match t_get_secret t1 with
-            | (t2, MOk s2) => if ok s2 then get_exprs ok k t2 (s2 :: acc) else (t2, MErr MOther)
+            | (t2, MOk s2) => if ok s2 then get_exprs ok check_fin k t2 (s2 :: acc) else (t2, MErr MOther)
             | (t2, MErr e) => (t2, MErr e)
             | (t2, MPanic) => (t2, MPanic)
             end
-          else if ok s then get_exprs ok k t1 (s :: acc) else (t1, MErr MOther)
+          else if ok s then get_exprs ok check_fin k t1 (s :: acc) else (t1, MErr MOther)
       | (t1, MErr e) => (t1, MErr e)
       | (t1, MPanic) => (t1, MPanic)
       end
@@ -271,7 +277,7 @@ Definition get_types (check_names : bool) (t : treader) (exprs : list bytes) : t
 Definition get_ad_gen (ok : bytes -> bool) (check_names : bool) (t : treader) : treader * mres received :=
   match t_get_int t with
   | (t1, MOk n) =>
-      match get_exprs ok (Z.to_nat n) t1 [] with
+      match get_exprs ok check_names (Z.to_nat n) t1 [] with
       | (t2, MOk es) => get_types check_names t2 es
       | (t2, MErr e) => (t2, MErr e)
       | (t2, MPanic) => (t2, MPanic)
@@ -290,6 +296,7 @@ Fixpoint skip_exprs (n : nat) (t : treader) : treader * mres unit :=
   match n with
   | O => (t, MOk tt)
   | S k =>
+      if t_finished t then (t, MErr MOther) else
       match t_skip_string t with
       | (t1, MOk true) =>
           match t_skip_secret t1 with
